@@ -1,6 +1,7 @@
 """C02 - expression text parses to the tree the precedence rules dictate."""
 import itertools
 import random
+import re
 
 from hypothesis import strategies as st
 
@@ -19,6 +20,7 @@ RULE = ('(a) every sequence of 1..3 (quick) / 1..4 (thorough) binary operators o
         'BareScriptParserError. Non-trivial: chains mixing >= 2 precedence levels; trees of depth >= 3 containing a group or unary; token '
         'strings of >= 3 tokens. Distinct by expression text.')
 RULE += ' Also: bracketed names containing `\\\\]` followed by parentheses / quotes, number literals beyond the double range, control characters in string literals, non-ASCII identifiers and call names.'
+RULE += ' Round 8: every generated tree is also broken by one small edit that cannot leave an expression (a blank inside a number literal / before or after its exponent letter / inside a two-character operator, an empty argument position): the result must be rejected.'
 RULE += ' Round 7: number literals written with an explicit plus sign (+5, +0.5, +1e+3) in operand position.'
 ASSUMPTIONS = [
     'generated text avoids sign-prefixed number tokens (+5), white space at the edges inside [brackets] and string literals whose last '
@@ -319,6 +321,48 @@ def plan(tier):
     return specs
 
 
+_NUM_TOKEN = re.compile(r'[+-]?\d+(\.\d*)?(e[+-]?\d+)?$')
+
+
+def break_tokens(toks, rnd):
+    """One small edit of a well-formed token list that leaves text which is NOT an expression: white space inside a number literal or a two-character
+    operator, an empty argument position. Returns (tokens, what) or None if the list offers no place for any of them."""
+    cands = []
+    for i, t in enumerate(toks):
+        if not isinstance(t, str):
+            continue
+        if _NUM_TOKEN.match(t):
+            if 'e' in t:
+                k = t.index('e')
+                cands.append((i, t[:k] + ' ' + t[k:], 'blank-before-exponent'))
+                cands.append((i, t[:k + 1] + ' ' + t[k + 1:], 'blank-after-exponent-letter'))
+            digits = t.lstrip('+-')
+            if len(digits) >= 2 and digits[0].isdigit() and digits[1] in '0123456789.':
+                cut = len(t) - len(digits) + 1
+                cands.append((i, t[:cut] + ' ' + t[cut:], 'blank-inside-number'))
+        elif t in ('**', '<=', '>=', '==', '!=', '&&', '||'):
+            cands.append((i, t[0] + ' ' + t[1], 'blank-inside-operator'))
+        elif t == ',':
+            cands.append((i, rnd.choice([',,', ', ,', ',,,']), 'empty-argument'))
+    if not cands:
+        return None
+    i, new, how = rnd.choice(cands)
+    return toks[:i] + [new] + toks[i + 1:], how
+
+
+def check_rejected(text, how, origin):
+    d = {'kind': 'broken', 'text': text, 'how': how, 'from': origin}
+    try:
+        m = impl.bs.parse_expression(text)
+    except impl.bs.ParserError:
+        return
+    except RecursionError:
+        return
+    except Exception as e:  # pylint: disable=broad-except
+        raise Violation('parse_expression(%r) raised %s instead of a parser error' % (text, type(e).__name__), d, 'reject-host-exception') from e
+    raise Violation('ill-formed expression %r (%s, from %r) was accepted as %r' % (text, how, origin, m), d, 'ill-formed-accepted:' + how)
+
+
 def run_shard(ctx, spec):
     if spec['kind'] == 'chains':
         ix = 0
@@ -345,6 +389,12 @@ def run_shard(ctx, spec):
             except Violation as v:
                 v.detail.update(seed=seed, size=size)
                 raise
+            broken = break_tokens(toks, rnd)
+            if broken is not None:
+                btoks, how = broken
+                btext = ge.join_tokens(btoks, rnd)
+                check_rejected(btext, how, text)
+                ctx.case(digest('broken:' + btext), True, ['broken-by:' + how], {'text': btext, 'from': text})
             nt = ge.tree_depth(tree) >= 3 and ('group' in text or '(' in text or ge.tree_has(tree, ('unary',)))
             ctx.case(digest(text), nt, ['tree-depth%d' % min(ge.tree_depth(tree), 8)] +
                      [c for c, ks in (('has-call', ('call',)), ('has-unary', ('unary',)), ('has-string', ('str',)), ('has-bracket', ('brvar',)))
@@ -472,4 +522,7 @@ def shrink_tokens(toks):
 
 
 def replay(detail):
+    if detail.get('kind') == 'broken':
+        check_rejected(detail['text'], detail['how'], detail.get('from'))
+        return
     check_text(detail['text'], detail['expected'], detail.get('kind', 'replay'))
